@@ -118,6 +118,17 @@ class ReprObj:
     __hash__ = None
 
 
+class IterableRepr(ReprObj):
+    """A self-rendering object that can also be iterated (a data-frame-like object: iteration yields its column labels). As a child
+    it is ONE self-rendering object."""
+
+    def __iter__(self):
+        return iter(["column a", "column b"])
+
+    def __len__(self):
+        return 2
+
+
 class TF:
     """Tagifiable whose tagify() returns a freshly built (already tagified) payload."""
 
@@ -473,6 +484,8 @@ def _build(r):
             o = ReprObj("<u>not filled in yet</u>")
             _LATE.append((o, r["s"]))
             return o
+        if r.get("iterable"):
+            return IterableRepr(r["s"])
         if r.get("also_tagifiable"):
             # self-rendering AND tagifiable (a component class with a notebook preview): asked for markup directly, it is a
             # self-rendering object like any other
